@@ -77,6 +77,17 @@ namespace cnl {
                 lhs.numerator * rhs.denominator, lhs.denominator * rhs.numerator);
     }
 
+    namespace _impl {
+        // true iff exactly one denominator is negative,
+        // in which case cross-multiplication reverses the order of the two fractions
+        template<typename LhsDenominator, typename RhsDenominator>
+        [[nodiscard]] constexpr auto is_order_reversed(
+                LhsDenominator const& lhs, RhsDenominator const& rhs)
+        {
+            return (lhs < LhsDenominator{}) != (rhs < RhsDenominator{});
+        }
+    }
+
     // cnl::fraction comparison
     template<
             typename LhsNumerator, typename LhsDenominator, typename RhsNumerator,
@@ -105,7 +116,9 @@ namespace cnl {
             fraction<LhsNumerator, LhsDenominator> const& lhs,
             fraction<RhsNumerator, RhsDenominator> const& rhs)
     {
-        return lhs.numerator * rhs.denominator < rhs.numerator * lhs.denominator;
+        return _impl::is_order_reversed(lhs.denominator, rhs.denominator)
+                     ? rhs.numerator * lhs.denominator < lhs.numerator * rhs.denominator
+                     : lhs.numerator * rhs.denominator < rhs.numerator * lhs.denominator;
     }
 
     template<
@@ -115,7 +128,9 @@ namespace cnl {
             fraction<LhsNumerator, LhsDenominator> const& lhs,
             fraction<RhsNumerator, RhsDenominator> const& rhs)
     {
-        return lhs.numerator * rhs.denominator > rhs.numerator * lhs.denominator;
+        return _impl::is_order_reversed(lhs.denominator, rhs.denominator)
+                     ? rhs.numerator * lhs.denominator > lhs.numerator * rhs.denominator
+                     : lhs.numerator * rhs.denominator > rhs.numerator * lhs.denominator;
     }
 
     template<
@@ -125,7 +140,9 @@ namespace cnl {
             fraction<LhsNumerator, LhsDenominator> const& lhs,
             fraction<RhsNumerator, RhsDenominator> const& rhs)
     {
-        return lhs.numerator * rhs.denominator <= rhs.numerator * lhs.denominator;
+        return _impl::is_order_reversed(lhs.denominator, rhs.denominator)
+                     ? rhs.numerator * lhs.denominator <= lhs.numerator * rhs.denominator
+                     : lhs.numerator * rhs.denominator <= rhs.numerator * lhs.denominator;
     }
 
     template<
@@ -135,7 +152,9 @@ namespace cnl {
             fraction<LhsNumerator, LhsDenominator> const& lhs,
             fraction<RhsNumerator, RhsDenominator> const& rhs)
     {
-        return lhs.numerator * rhs.denominator >= rhs.numerator * lhs.denominator;
+        return _impl::is_order_reversed(lhs.denominator, rhs.denominator)
+                     ? rhs.numerator * lhs.denominator >= lhs.numerator * rhs.denominator
+                     : lhs.numerator * rhs.denominator >= rhs.numerator * lhs.denominator;
     }
 
 #if defined(CNL_IOSTREAMS_ENABLED)
